@@ -12,7 +12,7 @@ TInit == HInit /\ t \in 1 .. NT /\ l = 1
 
 TStep == /\ l <= Len(Traces[t])
          /\ l' = l + 1 /\ t' = t
-         /\ \/ Ev.ev = "started" /\ Started
+         /\ \/ Ev.ev \in {"starting", "started"} /\ Started    \* request entered / returned
             \/ Ev.ev = "stopreq" /\ StopReq(Ev.active, Ev.st)
             \/ Ev.ev = "final" /\ Final(Ev.st)
             \/ Ev.ev = "hook" /\ Hook(Ev.to, Ev.task, Ev.reason)
